@@ -1,6 +1,6 @@
 //! C19 (volume law, real arithmetic) - the cone / bicone samplers are the inverse CDF of the volume measure.
 use crate::obl::*;
-use crate::obl;
+use crate::{obl, oblf};
 use crate::rng::RngFor;
 use palette::convert::FromColorUnclamped;
 use palette::encoding::Srgb;
@@ -72,4 +72,35 @@ pub fn register(l: &mut Vec<Obl>) {
     }
     hwb!("hwb", Hwb<Srgb, T>, Hsv<Srgb, T>);
     hwb!("okhwb", Okhwb<T>, Okhsv<T>);
+    // uniform samplers of the bicone-shaped spaces: every component of the sample lies between the ends (scalar path: the hue
+    // sampler compares with PartialOrd). Draw order of the sampler: hue, r1 (height), r2 (radius).
+    macro_rules! uniform_bicone {
+        ($key:literal, $Ty:ty, $Hue:ty, $height:ident, $scale:expr) => {
+            uniform_bicone!(@one $key, "new", new, $Ty, $Hue, $height, $scale);
+            uniform_bicone!(@one $key, "new_inclusive", new_inclusive, $Ty, $Hue, $height, $scale);
+        };
+        (@one $key:literal, $kname:literal, $kind:ident, $Ty:ty, $Hue:ty, $height:ident, $scale:expr) => {
+            oblf!(l; concat!("c19_", $key, "_uniform_", $kname, "_between"), "C19", Tier::Quick,
+                concat!("Uniform::", $kname, "(lo, hi).sample of ", stringify!($Ty), ": saturation and lightness of the sample lie between those of lo and hi (1e-6 of the component's scale) for all ends with lo + 1% <= hi in both components and every triple of uniform draws (rand's Uniform taken as its contract lo + (hi - lo) u, u in [0,1]); hue ends 10 and 200 degrees"),
+                ["impl_rand_traits_hsl_bicone! (UniformSampler::new / new_inclusive / sample)", "random_sampling::cone::{invert_hsl_sample, sample_hsl, sample_bicone_height, invert_bicone_height_sample}"],
+                [var("lo_s", 0.0, 1.0), var("hi_s", 0.0, 1.0), var("lo_l", 0.0, 1.0), var("hi_l", 0.0, 1.0), var("u_hue", 0.0, 1.0), var("u1", 0.0, 1.0), var("u2", 0.0, 1.0)];
+                |v| {
+                    use rand::distributions::uniform::UniformSampler;
+                    let mut r = Res::<B>::new();
+                    r.assume((v[0] + T::k(0.01)).le(v[1]) & (v[2] + T::k(0.01)).le(v[3]));
+                    let k = T::k($scale);
+                    let lo = <$Ty>::new(<$Hue>::new(T::k(10.0)), v[0] * k, v[2] * k);
+                    let hi = <$Ty>::new(<$Hue>::new(T::k(200.0)), v[1] * k, v[3] * k);
+                    let mut rng = <T as RngFor>::rng(&v[4..7]);
+                    let u = <<$Ty as rand::distributions::uniform::SampleUniform>::Sampler as UniformSampler>::$kind(lo, hi);
+                    let c = u.sample(&mut rng);
+                    r.goal("saturation_between", (v[0] * k - T::k(1e-6 * $scale)).le(c.saturation) & c.saturation.le(v[1] * k + T::k(1e-6 * $scale)));
+                    r.goal("lightness_between", (v[2] * k - T::k(1e-6 * $scale)).le(c.$height) & c.$height.le(v[3] * k + T::k(1e-6 * $scale)));
+                    r
+                });
+        };
+    }
+    uniform_bicone!("hsl", Hsl<Srgb, T>, palette::RgbHue<T>, lightness, 1.0);
+    uniform_bicone!("okhsl", Okhsl<T>, palette::OklabHue<T>, lightness, 1.0);
+    uniform_bicone!("hsluv", palette::Hsluv<palette::white_point::D65, T>, palette::LuvHue<T>, l, 100.0);
 }
